@@ -352,6 +352,37 @@ def _ents(ctx, it):
     return iter_realise(ctx, it)
 
 
+def _as_iter(ctx, b):
+    """IntoIterator argument of zip / chain / extend as an IterV"""
+    if isinstance(b, IterV):
+        return b
+    if isinstance(b, Seq):
+        return IterV(b.ents)
+    if isinstance(b, Enum) and set(b.pay) <= {0, 1}:
+        c = opt_is_some(b)
+        return IterV(()) if c is False else IterV(((c, opt_val(b)),))
+    if isinstance(b, tuple) and len(b) == 1 and is_int(b[0]):
+        return ('range_from', b[0])            # `(k..)`: unbounded; only meaningful zipped with something finite
+    if isinstance(b, tuple):
+        return IterV(tuple((True, x) for x in b))
+    if isinstance(b, (Ptr, PtrIte)):
+        from .models import _entries_of_slice
+        return IterV(_entries_of_slice(ctx, b, True))
+    raise Unsupported('IntoIterator argument %r' % (b,))
+
+
+@model(r'^<.* as std::convert::AsRef<.*>>::as_ref$')
+def _as_ref_identity(ctx, p):
+    m = re.match(r'^<(.*) as std::convert::AsRef<(.*)>>::as_ref$', ctx.callee)
+    a, b = m.group(1).strip(), m.group(2).strip()
+    if a == b or (a, b) in (('std::string::String', 'str'), ('std::vec::Vec<u8>', '[u8]'), ('str', '[u8]'), ('std::string::String', '[u8]')) or a.startswith('std::vec::Vec<') and b.startswith('['):
+        if b == '[u8]' and a in ('str', 'std::string::String'):
+            from .models import _str_as_bytes
+            return _str_as_bytes(ctx, p)
+        return p
+    return X.NOT_HANDLED
+
+
 @model(r'^<.* as std::iter::Iterator>::take$')
 def _iter_take(ctx, it, n):
     ents = _ents(ctx, it)
@@ -372,7 +403,21 @@ def _iter_rev(ctx, it):
 
 @model(r'^<.* as std::iter::Iterator>::zip::<.*>$')
 def _iter_zip(ctx, a, b):
-    ea, eb = _ents(ctx, a), _ents(ctx, b if isinstance(b, IterV) else IterV(b.ents) if isinstance(b, Seq) else b)
+    ia, ib = _as_iter(ctx, a), _as_iter(ctx, b)
+
+    def counting(start, m):
+        w = start.w if isinstance(start, CI) else bv(start).size()
+        return [(True, CI(start.v + k, w) if isinstance(start, CI) else simp(bv(start) + k)) for k in range(m)]
+    if isinstance(ia, tuple) and isinstance(ib, tuple):
+        raise Unsupported('zip of two unbounded ranges')
+    if isinstance(ia, tuple):
+        eb = _ents(ctx, ib)
+        ea = counting(ia[1], len(eb))
+    elif isinstance(ib, tuple):
+        ea = _ents(ctx, ia)
+        eb = counting(ib[1], len(ea))
+    else:
+        ea, eb = _ents(ctx, ia), _ents(ctx, ib)
     if not (all(g is True for g, _ in ea) and all(g is True for g, _ in eb)):
         raise Unsupported('zip over sparse iterators')
     return IterV(tuple((True, (x[1], y[1])) for x, y in zip(ea, eb)))
@@ -380,8 +425,7 @@ def _iter_zip(ctx, a, b):
 
 @model(r'^<.* as std::iter::Iterator>::chain::<.*>$')
 def _iter_chain(ctx, a, b):
-    eb = b if isinstance(b, IterV) else (IterV(b.ents) if isinstance(b, Seq) else b)
-    return IterV(tuple(_ents(ctx, a)) + tuple(_ents(ctx, eb)))
+    return IterV(tuple(_ents(ctx, a)) + tuple(_ents(ctx, _as_iter(ctx, b))))
 
 
 @model(r'^<.* as std::iter::Iterator>::(copied|cloned)::<.*>$')
@@ -1019,3 +1063,144 @@ def _string_as_bytes(ctx, p):
 def _string_bytes_chars(ctx, p):
     from .models import _str_bytes, _str_chars
     return _str_bytes(ctx, p) if ctx.callee.endswith('bytes') else _str_chars(ctx, p)
+
+
+# ------------------------------------------------------------------ Option / array chunks as iterators, catch-all next()
+
+@model(r'^<std::option::Option<.*> as std::iter::IntoIterator>::into_iter$')
+def _opt_into_iter(ctx, o):
+    c = opt_is_some(o)
+    if c is False:
+        return IterV(())
+    return IterV(((c, opt_val(o)),))
+
+
+@model(r'^std::option::Option::<.*>::(iter|iter_mut)$')
+def _opt_iter(ctx, p):
+    o = ctx.deref(p)
+    c = opt_is_some(o)
+    if c is False:
+        return IterV(())
+    return IterV(((c, Ptr(p.root, p.path + (('v', 1), ('f', 0)))),))
+
+
+@model(r'^<.* as std::iter::Iterator>::next$')
+def _any_iter_next(ctx, p):
+    """any iterator type whose value in the executor is an IterV (adaptor results keep that representation)"""
+    try:
+        it = ctx.deref(p)
+    except Exception:
+        return X.NOT_HANDLED
+    if not isinstance(it, IterV):
+        return X.NOT_HANDLED
+    from .models import _iter_next
+    if it.stages:
+        ctx.write(p, IterV(tuple(iter_realise(ctx, it))))
+    return _iter_next(ctx, p)
+
+
+@model(r'^<.* as std::iter::Iterator>::(flatten|fuse|peekable|by_ref)$')
+def _iter_identityish(ctx, it):
+    if ctx.callee.endswith('flatten'):
+        out = []
+        for g, v in _ents(ctx, it):
+            if isinstance(v, Enum) and set(v.pay) <= {0, 1}:
+                c = opt_is_some(v)
+                if c is not False:
+                    out.append((b_and(g, c), opt_val(v)))
+            elif isinstance(v, Seq):
+                out += [(b_and(g, g2), v2) for g2, v2 in v.ents]
+            elif isinstance(v, IterV):
+                out += [(b_and(g, g2), v2) for g2, v2 in iter_realise(ctx, v)]
+            elif isinstance(v, tuple):
+                out += [(g, x) for x in v]
+            else:
+                raise Unsupported('flatten over %r' % (v,))
+        return IterV(tuple(out))
+    if ctx.callee.endswith('by_ref'):
+        return it
+    if isinstance(it, IterV) and not ctx.callee.endswith('peekable'):
+        return it
+    return X.NOT_HANDLED
+
+
+@model(r'^core::slice::<impl \[.*\]>::(split_first_chunk|first_chunk)::<(\d+)>$')
+def _first_chunk(ctx, p):
+    n = int(re.search(r'::<(\d+)>$', ctx.callee).group(1))
+    ex = ctx.ex
+    ln = ex.slice_len(p, ctx.st)
+    okc = ex.binop('Ge', ln, CI(n, 64), 'usize')
+    base = p.rng[0] if p.rng is not None else CI(0, 64)
+    end = p.rng[1] if p.rng is not None else ln
+    mid = ex.binop('Add', base, CI(n, 64), 'usize')
+    head = Ptr(p.root, p.path, (base, mid))
+    if 'split_' in ctx.callee:
+        return mk_option(okc, (head, Ptr(p.root, p.path, (mid, end))))
+    return mk_option(okc, head)
+
+
+@model(r'^core::slice::<impl \[.*\]>::(split_last_chunk|last_chunk)::<(\d+)>$')
+def _last_chunk(ctx, p):
+    n = int(re.search(r'::<(\d+)>$', ctx.callee).group(1))
+    ex = ctx.ex
+    ln = ex.slice_len(p, ctx.st)
+    okc = ex.binop('Ge', ln, CI(n, 64), 'usize')
+    base = p.rng[0] if p.rng is not None else CI(0, 64)
+    end = p.rng[1] if p.rng is not None else ln
+    mid = ex.binop('Sub', end, CI(n, 64), 'usize')
+    tail = Ptr(p.root, p.path, (mid, end))
+    if 'split_' in ctx.callee:
+        return mk_option(okc, (Ptr(p.root, p.path, (base, mid)), tail))
+    return mk_option(okc, tail)
+
+
+@model(r'^std::array::<impl \[.*; \d+\]>::map::<.*>$')
+def _array_map(ctx, arr, clos):
+    out = []
+    for v in arr:
+        r = call_under(ctx, True, clos, [v])
+        if r is None:
+            return X.DIVERGE
+        out.append(r)
+    return tuple(out)
+
+
+@model(r'^std::array::<impl \[.*; \d+\]>::(as_slice|as_mut_slice|each_ref)$')
+def _array_as_slice(ctx, p):
+    if ctx.callee.endswith('each_ref'):
+        v = ctx.deref(p)
+        return tuple(Ptr(p.root, p.path + (('i', CI(k, 64)),)) for k in range(len(v)))
+    return p
+
+
+@model(r'^<std::option::Option<.*> as std::ops::Try>::branch$')
+def _opt_branch(ctx, o):
+    # ControlFlow: Continue = 0, Break = 1.   Some(v) -> Continue(v) ; None -> Break(None)
+    c = opt_is_some(o)
+    pay = {1: (NONE,)}
+    if 1 in o.pay and o.pay[1]:
+        pay[0] = o.pay[1]
+    return Enum(ite(c, CI(0, 64), CI(1, 64)), pay)
+
+
+@model(r'^<std::option::Option<.*> as std::ops::FromResidual<.*>>::from_residual$')
+def _opt_from_residual(ctx, r):
+    return NONE
+
+
+@model(r'^<.* as std::iter::Iterator>::reduce::<.*>$')
+def _iter_reduce(ctx, it, clos):
+    ents = _ents(ctx, it)
+    have, acc = False, None
+    for g, v in ents:
+        if acc is None:
+            have, acc = g, v
+            continue
+        r = call_under(ctx, b_and(g, have), clos, [acc, v])
+        # with an accumulator: combine; without one yet (earlier entries absent): start here
+        nxt = v if have is False else (ite(have, r, v) if r is not None else v)
+        acc = nxt if g is True else ite(g, nxt, acc)
+        have = b_or(have, g)
+    if acc is None:
+        return NONE
+    return mk_option(have, acc)
